@@ -187,12 +187,8 @@ func (s *LinearState) Add(ctx *Context, id string, x Map) (string, error) {
 	// orders, and storage would keep a different fact than memory.
 	s.slock(ctx, false)
 
-	pair := &Pair{[]byte(id), bs}
-	if err = s.store.Add(ctx, s.Name, pair); err != nil {
-		s.sunlock(ctx, false)
-		return id, err
-	}
-
+	// Try the hook first: if it refuses the fact, nothing has been
+	// written yet.
 	if s.addHook != nil {
 		// The hook might want to look at the state, which we
 		// have locked.
@@ -204,6 +200,12 @@ func (s *LinearState) Add(ctx *Context, id string, x Map) (string, error) {
 			Log(ERROR, ctx, "LinearState.Add", "state", s.Name, "error", err, "when", "addHook", "id", id)
 			return "", err
 		}
+	}
+
+	pair := &Pair{[]byte(id), bs}
+	if err = s.store.Add(ctx, s.Name, pair); err != nil {
+		s.sunlock(ctx, false)
+		return id, err
 	}
 
 	if _, isRule := m["rule"]; isRule {
